@@ -39,7 +39,7 @@ Proof.
   destruct (el_hdr el1) as [h|]; [|discriminate].
   unfold save_header.
   destruct (os_bad (write _ _)) eqn:B1; cbn [negb]; [discriminate|].
-  destruct (sections_plan _ _ _ _ _ _ _ _) as [[[st1 secs1] plan_s]|]; cbn [bind]; [|discriminate].
+  destruct (sections_plan _ _ _ _ _ _ _ _ _) as [[[st1 secs1] plan_s]|]; cbn [bind]; [|discriminate].
   destruct (os_abort (exec_plan _ plan_s)); [discriminate|].
   destruct (os_bad (exec_plan _ plan_s)) eqn:B2; [discriminate|].
   destruct (os_abort (exec_plan _ (segments_plan _ _ _))); [discriminate|].
